@@ -38,6 +38,21 @@ func NewGen(t *rapid.T, cfg GenCfg) *Gen { return &Gen{T: t, Cfg: cfg} }
 
 // DrawShape draws a shape of rank 0..MaxRank with at most MaxElems elements.
 func (g *Gen) DrawShape(minRank int) []int {
+	// occasionally one long dimension (carries past small sizes, shape-keyed state)
+	if minRank <= 2 && rapid.IntRange(0, 11).Draw(g.T, "longshape") == 0 {
+		long := rapid.SampledFrom([]int{17, 31, 32, 33, 63, 64}).Draw(g.T, "long")
+		if long > g.Cfg.MaxElems*2 {
+			long = g.Cfg.MaxElems
+		}
+		switch rapid.IntRange(0, 2).Draw(g.T, "longform") {
+		case 0:
+			return []int{long}
+		case 1:
+			return []int{1, long}
+		default:
+			return []int{long, 1}
+		}
+	}
 	rank := rapid.IntRange(minRank, g.Cfg.MaxRank).Draw(g.T, "rank")
 	s := make([]int, rank)
 	n := 1
